@@ -15,9 +15,9 @@
  * Each body goes through a real SCPI_Input("T (<body>)\n"); the command handler fetches the
  * parameter with SCPI_Parameter and asks for entry 0..9 with SCPI_ExprNumericListEntry, ...Int,
  * ...Double and, for every capacity 0..4, SCPI_ExprChannelListEntry.  Errors are popped from the
- * context's queue after every call.  The channel value arrays sit between canary words; every
- * channel call is repeated on exact-size malloc blocks so that ASan sees a store beyond the
- * capacity as well.
+ * context's queue after every call.  The channel value arrays sit between canary words (4 on each
+ * side); a channel call that left them intact is repeated on exact-size malloc blocks so that ASan
+ * sees any other store beyond the capacity as well.
  *
  * line: {"b":[bytes],"h":1,"N":[per index],"C":[per index]}      (h: the handler ran)
  *   N[i] = [T,I,D]  T = [rc,isRange,[fromStart,fromLen],[toStart,toLen],errs]   (token API, 1-based)
@@ -45,6 +45,17 @@
 #define MAXBODY 1500
 
 static scpi_t ctx;
+static const unsigned char * cur_body;
+static size_t cur_len;
+static int cur_idx = -1, cur_cap = -1;
+/* called by the ASan runtime before it prints a report: name the query that was running */
+void __asan_on_error(void);
+void __asan_on_error(void) {
+    size_t i;
+    fprintf(stderr, "CURRENT-QUERY: index=%d capacity=%d body=", cur_idx, cur_cap);
+    for (i = 0; i < cur_len; i++) fprintf(stderr, "%s%d", i ? " " : "", cur_body[i]);
+    fprintf(stderr, "\n");
+}
 static char ibuf[2048];
 static scpi_error_t eq[16];
 static FILE * out;
@@ -103,6 +114,7 @@ static void numeric_queries(sb_t * s, scpi_parameter_t * expr, int idx) {
     int32_t fi, ti;
     double fd, td;
 
+    cur_idx = idx; cur_cap = -1;
     SCPI_ErrorClear(&ctx);
     isr = FALSE; memset(&pf, 0, sizeof pf); memset(&pt, 0, sizeof pt);
     r = SCPI_ExprNumericListEntry(&ctx, expr, idx, &isr, &pf, &pt);
@@ -133,6 +145,7 @@ static void channel_query(sb_t * s, scpi_parameter_t * expr, int idx, int cap) {
     size_t i, n;
     int intact = 1;
 
+    cur_idx = idx; cur_cap = cap;
     for (i = 0; i < words; i++) bf[i] = bt[i] = (i < NCAN || i >= NCAN + (size_t) cap) ? (int32_t) CANARY : FILL;
     SCPI_ErrorClear(&ctx);
     r = SCPI_ExprChannelListEntry(&ctx, expr, idx, &isr, bf + NCAN, bt + NCAN, (size_t) cap, &dims);
@@ -149,7 +162,9 @@ static void channel_query(sb_t * s, scpi_parameter_t * expr, int idx, int cap) {
     sb_add(s, ",%d]", intact);
     free(bf); free(bt);
 
-    /* the same call on exact-size blocks: a store beyond the capacity is an ASan report */
+    /* the same call on exact-size blocks: a store beyond the capacity is an ASan report
+       (skipped when the canaries already show the overrun, so that the record is written) */
+    if (!intact) return;
     xf = malloc((size_t) cap * sizeof(int32_t)); xt = malloc((size_t) cap * sizeof(int32_t));
     isr = FALSE; dims = 77;
     (void) SCPI_ExprChannelListEntry(&ctx, expr, idx, &isr, xf, xt, (size_t) cap, &dims);
@@ -205,6 +220,7 @@ static void run_body(const unsigned char * body, size_t n) {
     static char msg[MAXBODY + 16];
     size_t i;
     if (n > MAXBODY) return;
+    cur_body = body; cur_len = n; cur_idx = cur_cap = -1;
     sb_reset(&line);
     sb_add(&line, "{\"b\":[");
     for (i = 0; i < n; i++) sb_add(&line, "%s%d", i ? "," : "", body[i]);
